@@ -168,6 +168,8 @@ C17_HASH_ITER_OK = {
         'sort key counts the advice columns of the set: filter(..).count() is order-insensitive',
     '<' + _FP + 'single_pass::SingleChipLayouter as midnight_proofs::circuit::Layouter>::assign_region|<std::collections::hash::set::HashSet as core::iter::traits::collect::IntoIterator>::into_iter':
         'first loop takes a max over the columns, second inserts region_start + rows under each column key: both order-insensitive',
+    '<' + _FP + 'single_pass::SingleChipLayouter as midnight_proofs::circuit::Layouter>::assign_region|<&std::collections::hash::set::HashSet as core::iter::traits::collect::IntoIterator>::into_iter':
+        'region_start = max over the region columns of their current usage: a commutative reduction',
     '<' + _FP + 'single_pass::SingleChipLayouter as midnight_proofs::circuit::Layouter>::assign_table|HashMap::keys':
         'pushes the table columns into self.table_columns, which is only queried with contains()',
     '<' + _FP + 'single_pass::SingleChipLayouter as midnight_proofs::circuit::Layouter>::assign_table|<std::collections::hash::map::HashMap as core::iter::traits::collect::IntoIterator>::into_iter':
@@ -331,3 +333,90 @@ D_FLOORS = {
     'C07': dict(advice=45, gadget_fns=60, d4=1, mustcall=5),
     'C19': dict(advice=3, gadget_fns=15, d4=3, mustcall=4),
 }
+
+
+def _c07_extra(ck, w):
+    """E4-style rule for C07: every ZkStdLib method that uses a table-bearing hash chip raises the flag under which MidnightCircuit::synthesize loads its table."""
+    from .core import walk, peel, callee
+    from .engines import hirq
+    ck.rule('C07.T1', 'lazy table loading: (chip field, used_* flag) pairs are read off MidnightCircuit::synthesize; every ZkStdLib method that reads such a chip '
+                      'field also sets the paired flag, otherwise the chip\'s lookup table is never loaded and its lookups are vacuous / unsatisfiable')
+    syn = [f for f in w.all_fns(['zk_stdlib']) if f['name'] == 'synthesize' and 'MidnightCircuit' in (f.get('impl') or {}).get('self', '')]
+    if not syn:
+        ck.bad('C07.T1', 'synthesize:anchor', 'MidnightCircuit::synthesize not found (anchor)')
+        return
+    pairs = {}
+    for n in walk(syn[0]['body']):
+        if n.get('k') == 'if' and peel(n['c']).get('k') == 'letx':
+            chip = [x['n'] for x in walk(peel(n['c'])['init']) if x.get('k') == 'field' and x['n'].endswith(('_chip', '_gadget'))]
+            flags = [x['n'] for x in walk(n['a']) if x.get('k') == 'field' and x['n'].startswith('used_')]
+            loads = [c for c in hirq.calls(n['a']) if c.get('m') in ('load', 'load_table')]
+            if chip and flags and loads:
+                pairs[chip[0]] = flags[0]
+    ck.floor('C07.T1', '(chip, flag) pairs in synthesize', len(pairs), 4)
+    n = 0
+    for f in w.all_fns(['zk_stdlib']):
+        if 'ZkStdLib' not in (f.get('impl') or {}).get('self', '') or f['name'] in ('configure', 'new', 'synthesize'):
+            continue
+        if (f.get('impl') or {}).get('trait'):
+            continue
+        reads = {x['n'] for x in walk(f['body']) if x.get('k') == 'field'}
+        sets = {x['n'] for a in walk(f['body']) if a.get('k') == 'assign' for x in walk(a['lhs']) if x.get('k') == 'field'}
+        for chip, flag in pairs.items():
+            if chip in reads:
+                n += 1
+                ck.record('C07.T1', f'{f["name"]}:{chip}->{flag}', flag in sets, f'sets {flag}',
+                          f'ZkStdLib::{f["name"]} uses {chip} but does not set {flag}: MidnightCircuit::synthesize will not load the chip\'s table', hirq.fn_loc(f))
+    ck.floor('C07.T1', 'chip-using ZkStdLib methods', n, 4)
+
+
+D_EXTRA = {'C07': _c07_extra}
+
+_FCSUB = '<midnight_circuits::field::foreign::field_chip::FieldChip as midnight_circuits::instructions::arithmetic::ArithInstructions>::sub'
+D6_TABLE = {
+    _FCSUB + '|xi_bounds.0~yi_bounds.1': 'interval subtraction: lower(x - y) = lower(x) - upper(y)',
+    _FCSUB + '|xi_bounds.1~yi_bounds.0': 'interval subtraction: upper(x - y) = upper(x) - lower(y)',
+}
+
+
+_FC = 'midnight_circuits::field::foreign::field_chip::FieldChip'
+C05_NORMALIZED_PARAMS = {
+    # function -> AssignedField parameters that must be normalised before any limb-wise use ("same residue => same representation")
+    '<' + _FC + ' as midnight_circuits::instructions::public_input::PublicInputInstructions>::as_public_input': ['assigned'],
+    '<' + _FC + ' as midnight_circuits::instructions::assertions::AssertionInstructions>::assert_equal': ['x', 'y'],
+    '<' + _FC + ' as midnight_circuits::instructions::assertions::AssertionInstructions>::assert_equal_to_fixed': ['x'],
+    '<' + _FC + ' as midnight_circuits::instructions::zero::ZeroInstructions>::is_zero': ['x'],
+    '<' + _FC + ' as midnight_circuits::instructions::arithmetic::ArithInstructions>::div': ['y'],
+    _FC + '::assign_mul': ['x', 'y'],
+}
+
+
+def _c05_extra(ck, w):
+    from .core import walk, peel, callee, pat_bindings
+    from .engines import hirq
+    ck.rule('C05.N1', 'normalisation discipline: in the emulated-field operations that compare, expose or multiply representations, every listed AssignedField '
+                      'parameter is passed through FieldChip::normalize and its limbs are never read directly (two representations of one residue must be '
+                      'treated identically)')
+    for nid, names in C05_NORMALIZED_PARAMS.items():
+        f = w.fn(nid)
+        params = {b['n']: b['i'] for p_ in f['params'] for b in pat_bindings(p_)}
+        normed, direct = set(), set()
+        for c in hirq.calls(f['body']):
+            if (callee(c) or '').endswith('FieldChip::normalize'):
+                for a in c.get('args', []):
+                    r = peel(a)
+                    if r.get('k') == 'local':
+                        normed.add(r['i'])
+        for n in walk(f['body']):
+            if n.get('k') == 'field' and n['n'] in ('limb_values', 'limb_bounds'):
+                r = peel(n['e'])
+                if r.get('k') == 'local':
+                    direct.add(r['i'])
+        for nm in names:
+            i = params.get(nm)
+            ck.record('C05.N1', f'{nid}|{nm}', i is not None and i in normed and i not in direct, f'`{nm}` is normalised before use',
+                      f'{nid}: parameter `{nm}` is {"not passed to normalize" if i not in normed else "read limb-wise without normalisation"}: '
+                      f'a non-canonical representation of the same residue is treated as a different value', hirq.fn_loc(f))
+
+
+D_EXTRA['C05'] = _c05_extra
